@@ -2064,6 +2064,40 @@ def gen_stash_become(seed, mode="loop"):
     return sc
 
 
+def gen_stash_userdata(seed, mode="loop"):
+    """C16: an event is stashed, then the subscription (or descriptor source) it came through gets another user pointer -
+    the same topic subscribed again with the same flags, which updates the pointer in place - and the event is unstashed:
+    it is redelivered with its original content, user data included"""
+    r = random.Random(seed * 179 + 151)
+    sc = Sc(mode, "stashed event vs. replaced user pointer seed=%d" % seed)
+    driven_skeleton(sc)
+    T, S2 = 1, 2
+    sc.mod(T, "target", 0, r.choice([0, 4]))
+    sc.mod(S2, "sender", 0, 0)
+    sc.cb(T, "stop", "*", [])
+    sc.cb(S2, "evt", "*", [])
+    sc.main += [("reg", T), ("reg", S2), ("start", T), ("start", S2)]
+    tn = sc.topic(r.choice(["beta", "alpha"]))
+    fl = r.choice([0, 0, SRC_LOW, SRC_DUP])
+    sc.main.append(("sub", T, tn, fl, sc.ud()))
+    n_msgs = r.randrange(1, 4)
+    for n in range(n_msgs):
+        sc.cb(T, "evt", n, [("stash", -1, 0)])
+    sc.cb(T, "evt", "*", [])
+    steps = [[]]
+    steps.append([("publish", S2, tn, sc.pay(), 0) for _ in range(n_msgs)])
+    steps += [[], [], []]
+    steps.append([("sub", T, tn, fl, sc.ud())])             # same topic, same flags: only the user pointer is replaced
+    if r.random() < 0.5:
+        steps.append([("publish", S2, tn, sc.pay(), 0)])    # a fresh delivery carries the new pointer
+        steps += [[], []]
+    steps.append([("unstash", T, r.choice([-1, 1, n_msgs, 64]))])
+    steps += [[], [("unstash", T, -1)], []]
+    driven_finish(sc, steps, rng=r)
+    finalize_main(sc)
+    return sc
+
+
 PERM_W = dict(lifecycle=10, tell=10, publish=10, broadcast=4, pill=3, sub=10, unsub=4, fd=0, tmr=0, sgn=0, task=0, batch=0, stash=0,
               become=0, ctx=14, retain=0, misc=1, errno=0, sleep=0, dereg=8, tb=0, thresh=0)
 
